@@ -37,7 +37,7 @@ CO_OBJ *CODictFind(CO_DICT *cod, uint32_t key)
     int32_t  center;
 
     ASSERT_PTR_ERR(cod, NULL);
-    ASSERT_NOT_ERR(key, 0, NULL);
+    ASSERT_NOT_ERR(CO_GET_DEV(key), 0, NULL);
     ASSERT_PTR_ERR(cod->Root, NULL);
 
     pattern = CO_GET_DEV(key);
